@@ -109,6 +109,55 @@ def _run(ctx, base):
                      steps=[X.fmt_step(s) for s in steps_ok], verdict=verdict,
                      note="replay: ./check C12 --replay <this file> re-runs the request under strace"),
                 signature="C12:%s" % o)
+    # ---- a failing fsync must abort the request: every fsync the durability of the trace depends on is made to fail
+    fjobs, fmeta = [], []
+    quick_kinds = ("put_new", "put_over", "delete_item", "move_cross", "move_over_cross", "putcoll_replace", "mkcalendar", "proppatch",
+                   "delete_coll", "delete_coll_bare", "mkcol")
+    for (sh, lay, o), rec in zip(cases, recs):
+        un = rec["un"]
+        if un.get("error") or o.startswith("home") or un["status"] not in B.SUCCESS:
+            continue
+        if ctx.quick and not (o in quick_kinds and sh == "warm" and tuple(lay) == (False, False)):
+            continue
+        if not ctx.quick and o.startswith("putcoll_") and o[-1].isdigit() and not o.endswith(("n2", "n5")):
+            continue
+        ok_idx = [i for i, (st, ok) in enumerate(un["steps"]) if ok]
+        steps_ok = [un["steps"][i][0] for i in ok_idx]
+        nreq = 0
+        for pos, i in enumerate(ok_idx):
+            st = steps_ok[pos]
+            if st[0] not in ("FsyncF", "FsyncD"):
+                continue
+            if X.durable_monitor(steps_ok[:pos] + steps_ok[pos + 1:]) is None:
+                continue          # not needed for durability (cache / temp / redundant)
+            nreq += 1
+            name, ordinal = un["sys"][i][-1] if st[0] == "FsyncD" else un["sys"][i][0]
+            for err in (["EIO" if nreq % 2 else "ENOSPC"] if ctx.quick else ["EIO", "ENOSPC"]):
+                fjobs.append(dict(base=base, shape=sh, lay=lay, opname=o, tag="f-%s-%d%d-%s-%d-%s" % (sh, lay[0], lay[1], o, i, err),
+                                  inject=("fault", err, name, ordinal), pre_abs=un["pre_abs"], post_abs=un["post_abs"],
+                                  list_before=un["list_before"], list_after=un["list_after"], names=un["names"], contents=un["contents"]))
+                fmeta.append((o, sh, tuple(lay), X.fmt_step(st), err))
+    if fjobs:
+        ctx.log("failing fsyncs: %d runs" % len(fjobs))
+        with C.pool() as p:
+            fres = p.map(B.inject_run, fjobs, chunksize=2)
+        missed = 0
+        for job, (o, sh, lay, what, err), res in zip(fjobs, fmeta, fres):
+            ctx.case(("fsync-fails", o, sh, lay, what, err), nontrivial=True,
+                     sample=dict(request=o, failing=what, errno=err, status=res["status"]))
+            ctx.count("fsync-failure:%s" % ("aborted" if res["status"] not in B.SUCCESS else "answered-2xx"))
+            if not res["hit"]:
+                missed += 1
+                continue
+            if res["status"] in B.SUCCESS:
+                ctx.violation("C12: %s on store '%s' (layout %s) answered %s although [%s] failed with %s: the change is "
+                              "acknowledged without having been flushed" % (o, sh, lay, res["status"], what, err),
+                              dict(request=B.http_of(B.all_ops()[o]), shape=sh, layout=list(lay), inject=list(job["inject"]),
+                                   failing=what, errno=err, status=res["status"],
+                                   note="replay: ./check C12 --replay <this file>"),
+                              signature="C12:fsync-failure:%s" % o)
+        ctx.extra["fsync_failure_runs"] = len(fjobs)
+        ctx.obligation("harness:fsync-injections-hit", missed <= max(1, len(fjobs) // 20), "%d of %d missed" % (missed, len(fjobs)))
     ctx.obligation("correspondence:trace-vs-model", not bad_corr,
                    "" if not bad_corr else "; ".join("%s: %s" % (k, pr[0]) for k, pr in bad_corr[:6]))
     if bad_corr:
@@ -156,6 +205,13 @@ def replay(ctx, path):
             print("request not in the catalogue")
             return 0
         un = B.unfaulted(base, r["shape"], tuple(r["layout"]), op[0])
+        if r.get("inject"):
+            res = B.inject_run(dict(base=base, shape=r["shape"], lay=tuple(r["layout"]), opname=op[0], tag="replay",
+                                    inject=tuple(r["inject"]), pre_abs=un["pre_abs"], post_abs=un["post_abs"],
+                                    list_before=un["list_before"], list_after=un["list_after"], names=un["names"],
+                                    contents=un["contents"]))
+            print("failing:", r.get("failing"), r.get("errno"), "-> status", res["status"], "hit", res["hit"])
+            return 1 if res["status"] in B.SUCCESS else 0
         steps_ok = [st for st, ok in un["steps"] if ok]
         v = X.durable_monitor(steps_ok)
         print("status", un["status"], "verdict:", v)
